@@ -51,8 +51,33 @@ def kf4_case(rng):
     return c
 
 
+def reuse_feed_stream(run, driver, n):
+    """the caller passes the same feed DataFrame object to two consecutive calls and refreshes the counts in place in between:
+    the second run must report the current counts (derived columns left in the caller's frame must not be trusted)"""
+    rng = run.rng
+    for _ in range(n):
+        pi = rng.choice(["bootstrap", "bootstrap", "nonparametric"])
+        case = A.gen_case(rng, pi_method=pi, roles=["reporting"] * 6 + ["partial"] * 3, unexpected=False)
+        e = case["election"]
+        first = A.run_case(case, reuse_feed=True)
+        if "raises" in first:
+            continue
+        for i in e.cur.index:
+            if rng.random() < 0.6:
+                e.cur.loc[i, "results_dem"] = int(e.cur.loc[i, "results_dem"]) + rng.randint(1, 400)
+                e.cur.loc[i, "results_gop"] = int(e.cur.loc[i, "results_gop"]) + rng.randint(0, 90)
+                e.cur.loc[i, "results_turnout"] = int(e.cur.loc[i, "results_dem"] + e.cur.loc[i, "results_gop"]) + 5
+        rec = A.stage1(run, case, (PROP,), reuse_feed=True)
+        run.count("feed frame reused across two calls")
+        outs = None
+        if driver is not None and rec["ops"]:
+            outs = driver.run(rec["ops"])
+        A.stage2(run, rec, outs, (PROP,))
+
+
 def explore(run, driver, budget):
     K.explore(run, driver, budget, PROP, RULE, corpus=(kf1_case, kf4_case))
+    reuse_feed_stream(run, driver, {"quick": 4, "thorough": 120, "search": 20}[budget])
 
 
 def replay(run, driver, payload):
